@@ -22,16 +22,21 @@ RULE = (
     "per column from the kinds positive / mixed sign / all negative / containing exact zeros / minimum exactly 0 / tiny positive (as the "
     "scaler allows), dyadic eighths or arbitrary doubles, with ties; mixed objectives; the criteria are all float64 (1/2 of the cases), ALL "
     "int64 (whole numbers, the decision matrix built from an integer numpy array, 1/3) or mixed int64 / float64 through mkdm(dtypes=) "
-    "(1/6). Plus a malformed stream: criteria_range with "
+    "(1/6). MAGNITUDE of the data, drawn per case for every scaler and configuration: unit (the above, 1/2), huge (1/3: whole numbers "
+    "3e9..1e12 log-uniform in the integer-typed criteria - ALL int64 1/2, mixed 1/6 - and doubles 2^32..2^40 in the float ones; sums of "
+    "squares leave int64) or tiny (1/6: doubles 2^-42..2^-36, about 1e-12, float64 only); the weights follow the magnitude in 2/3 of "
+    "those cases and AddValueToZero's value in 1/2. Plus a malformed stream: criteria_range with "
     "lo >= hi (refusal). Three legs: implementation vs an independent Fraction / 60-digit Decimal evaluation of the normal form and the "
     "cell formula (property oracle), and implementation vs the Lean model (exact Rat; Lean Float for Vector/Standard). "
     "Non-trivial: every generated case (>= 2 alternatives and >= 2 criteria, non-constant columns); distinct by case hash."
 )
 ASSUMPTIONS = [
-    "numeric agreement means |impl - exact| <= 1e-9 * scale with scale = max(1, largest exact magnitude involved); 'untouched' parts "
+    "numeric agreement means |impl - exact| <= 1e-9 * scale with scale = max(1, largest exact magnitude involved) for the normal forms "
+    "(their output has magnitude 1 / the configured range whatever the data is) and scale = max|x| + |shift| computed from the input, "
+    "without the floor 1, for the shifts PushNegatives / AddValueToZero (output in the units of the data); 'untouched' parts "
     "(columns PushNegatives / AddValueToZero need not adjust, the part outside the target) are compared for exact equality",
-    "generator guards (DESIGN section 14): population std >= 1e-4 * max(1, |mean|), range >= 1e-3 * max|x|, |sum| >= 0.05 * sum|x|, "
-    "max|x| >= 2^-41: scikit-learn's near-constant thresholds (10 eps, n eps var + (n mean eps)^2) are never approached",
+    "generator guards (DESIGN section 14): population std >= 1e-4 * max(1, |mean|) (tiny data: max(2^-40, |mean|), and std >= 2^-41), range >= 1e-3 * max|x|, |sum| >= 0.05 * sum|x|, "
+    "max|x| >= 2^-41 (and range >= 2^-41 for MinMaxScaler: binds on tiny data only): scikit-learn's near-constant thresholds (10 eps, n eps var + (n mean eps)^2) are never approached",
     "scikit-learn's MaxAbsScaler / MinMaxScaler / StandardScaler are external: modelled by their documented formulas",
 ]
 PARTIAL = ("IEEE rounding, summation order and the correction term of scikit-learn's two-pass variance are not modelled; theorems are over "
@@ -62,10 +67,22 @@ def configs():
 # ----------------------------------------------------------------------------- generators
 
 
+# magnitude of the data of a case: "unit" (the historical one), "huge" (3e9 .. 1e12: money amounts, populations; whole numbers in the
+# integer-typed criteria, so that sums of squares leave int64) and "tiny" (2^-42 .. 2^-36, about 1e-12; float64 only)
+MAGNITUDES = ["unit", "unit", "unit", "huge", "huge", "tiny"]
+FAMILY_UNIT = {"bigint": 2.0 ** 36, "bigfloat": 2.0 ** 36, "tinyfloat": 2.0 ** -40}
+
+
 def _num(rng, family, sign):
     """one value: sign = +1 / -1"""
     if family == "int":  # whole numbers: the cells of an integer-typed criterion
         return float(sign * rng.randint(1, 40))
+    if family == "bigint":  # large whole numbers (exact doubles: < 2^53), log-uniform in 3e9 .. 1e12
+        return float(sign * min(10 ** 12, max(3 * 10 ** 9, int(10 ** rng.uniform(9.48, 12.0)))))
+    if family == "bigfloat":  # arbitrary doubles in 2^32 .. 2^40 (4.3e9 .. 1.1e12)
+        return sign * math.ldexp(rng.uniform(0.5, 1.0), rng.randint(33, 40))
+    if family == "tinyfloat":  # arbitrary doubles in 2^-42 .. 2^-36 (2.3e-13 .. 1.5e-11)
+        return sign * math.ldexp(rng.uniform(0.5, 1.0), rng.randint(-41, -36))
     if family == "dyadic":
         return sign * rng.randint(1, 40) / 8
     return sign * math.ldexp(rng.uniform(0.5, 1.0), rng.randint(-6, 9))
@@ -93,7 +110,7 @@ def vec(rng, k, family, kind, ties=0.25):
             x[rng.randrange(k)] = 0.0
         elif kind == "tiny":  # positive, one value tiny but not zero
             x = [_num(rng, family, 1) for _ in range(k)]
-            x[rng.randrange(k)] = 2.0 ** -40
+            x[rng.randrange(k)] = 2.0 ** -40 * FAMILY_UNIT.get(family, 1.0)  # relative to the magnitude of the data
         else:
             raise ValueError(kind)
         for i in range(1, k):
@@ -116,8 +133,9 @@ def _kind_ok(x, kind):
     return True
 
 
-def guards_ok(name, x):
-    """keep clear of the numerical thresholds (DESIGN section 14)"""
+def guards_ok(name, x, unit=1):
+    """keep clear of the numerical thresholds (DESIGN section 14); unit: the magnitude of the family the vector was drawn from
+    (1 for the historical families), the reference of the guard on the standard deviation"""
     f = [C.F(v) for v in x]
     k = len(f)
     amax = max(abs(v) for v in f)
@@ -126,17 +144,19 @@ def guards_ok(name, x):
     if name == "SumScaler":
         return abs(sum(f)) * 20 >= sum(abs(v) for v in f)
     if name in ("MinMaxScaler", "CenitDistanceMatrixScaler"):
-        return (max(f) - min(f)) * 1000 >= amax
+        # the range itself is a scale for scikit-learn (10 eps threshold): it matters on tiny data only
+        return (max(f) - min(f)) * 1000 >= amax and max(f) - min(f) >= Fraction(1, 2 ** 41)
     if name == "StandarScaler":
         mean = sum(f) / k
         var = sum((v - mean) ** 2 for v in f) / k
-        return var >= Fraction(1, 10 ** 8) * max(1, abs(mean)) ** 2
+        # a standard deviation is a scale for scikit-learn as well (10 eps): 2^-41 binds on tiny data only
+        return var >= Fraction(1, 10 ** 8) * max(C.F(unit), abs(mean)) ** 2 and var >= Fraction(1, 2 ** 82)
     return True
 
 
 def kinds_for(name, family=None):
     kinds = ["pos", "pos", "mixed", "neg", "zero", "minzero", "tiny"] if name == "SumScaler" else KINDS_ANY
-    if family == "int":  # a whole-number column cannot hold the tiny value
+    if family in ("int", "bigint"):  # a whole-number column cannot hold the tiny value
         kinds = [k for k in kinds if k != "tiny"]
     return kinds
 
@@ -144,19 +164,26 @@ def kinds_for(name, family=None):
 def draw(rng, name, k, family):
     for _ in range(200):
         x = vec(rng, k, family, rng.choice(kinds_for(name, family)))
-        if guards_ok(name, x):
+        if guards_ok(name, x, min(1.0, FAMILY_UNIT.get(family, 1.0))):
             return x
+    if family in FAMILY_UNIT:
+        raise RuntimeError("could not draw a guarded vector")
     return vec(rng, k, family, "pos", ties=0.0)
 
 
-def make_case(rng, cfg, malformed=False):
+def make_case(rng, cfg, malformed=False, magnitude="unit"):
     name, target, params = cfg
     params = dict(params)
     m = rng.randint(2, 8)
     n = rng.choice([x for x in range(2, 7) if x != m])
     family = rng.choice(["dyadic", "dyadic", "float"])
     # dtype of each criterion: all float64 / ALL int64 (the matrix is built from an integer numpy array) / mixed int64-float64
-    mode = rng.choice(["float", "float", "float", "int", "int", "mixed"])
+    if magnitude == "tiny":
+        mode = "float"
+    elif magnitude == "huge":
+        mode = rng.choice(["int", "int", "int", "float", "float", "mixed"])
+    else:
+        mode = rng.choice(["float", "float", "float", "int", "int", "mixed"])
     if mode == "int":
         dtypes = ["int"] * n
     elif mode == "mixed":
@@ -165,12 +192,18 @@ def make_case(rng, cfg, malformed=False):
         dtypes[i], dtypes[k] = "int", "float"
     else:
         dtypes = ["float"] * n
-    cols = [draw(rng, name, m, "int" if dtypes[j] == "int" else family) for j in range(n)]
+    # families of the cells: (integer-typed criterion, float criterion, weights); weights are float64 whatever the matrix is
+    fam_int, fam_float = {"unit": ("int", family), "huge": ("bigint", "bigfloat"), "tiny": (None, "tinyfloat")}[magnitude]
+    fam_w = family
+    if magnitude != "unit":
+        family = fam_float
+        fam_w = rng.choice([fam_float, fam_float, fam_w])
+    cols = [draw(rng, name, m, fam_int if dtypes[j] == "int" else fam_float) for j in range(n)]
     matrix = [[cols[j][i] for j in range(n)] for i in range(m)]
     if target in ("weights", "both"):
-        weights = draw(rng, name, n, family)
+        weights = draw(rng, name, n, fam_w)
     else:
-        weights = vec(rng, n, family, "pos")
+        weights = vec(rng, n, fam_w, "pos")
     if name == "MinMaxScaler":
         r = params.pop("range")
         if r is None:
@@ -182,9 +215,11 @@ def make_case(rng, cfg, malformed=False):
         params["lo"], params["hi"] = r
     if name == "AddValueToZero" and params["value"] is None:
         params["value"] = math.ldexp(rng.uniform(0.5, 1.0), rng.randint(-8, 4))
+    if name == "AddValueToZero" and magnitude != "unit" and rng.random() < 0.5:
+        params["value"] = params["value"] * FAMILY_UNIT[fam_float]  # an increment of the magnitude of the data (power of two: exact)
     dm = {"matrix": matrix, "objectives": G.objectives(rng, n, "mixed"), "weights": weights,
           "alternatives": G.labels(rng, G.LABEL_POOL_ALT, m), "criteria": G.labels(rng, G.LABEL_POOL_CRIT, n), "family": family,
-          "dtypes": dtypes}
+          "dtypes": dtypes, "magnitude": magnitude}
     return {"name": name, "target": target, "params": params, "dm": dm, "malformed": bool(malformed)}
 
 
@@ -201,7 +236,9 @@ def gen(ctx):
     for i in range(ctx.n(432, 6400)):
         nm = names[i % len(names)]
         lst = by_scaler[nm]
-        cases.append(make_case(rng, lst[(i // len(names)) % len(lst)]))
+        # every scaler and configuration sees unit / huge / tiny data in the same proportion (1/2, 1/3, 1/6)
+        mag = rng.choice(MAGNITUDES)
+        cases.append(make_case(rng, lst[(i // len(names)) % len(lst)], magnitude=mag))
     for i in range(ctx.n(12, 120)):
         cases.append(make_case(rng, ("MinMaxScaler", rng.choice(TARGETS), {"range": None, "clip": rng.random() < 0.5}), malformed=True))
     return cases
@@ -314,13 +351,15 @@ def normal_form(name, params, xs, ys, obj=None):
     y = [C.F(v) for v in ys]
     k = len(x)
 
-    def close(a, b, scale):
-        return abs(D(a) - D(b)) <= REL * max(Decimal(1), D(scale))
+    def close(a, b, scale, floor=1):
+        return abs(D(a) - D(b)) <= REL * max(Decimal(floor), D(scale))
 
-    def cells(expected, label, scale=None):
+    def cells(expected, label, scale=None, floor=1):
+        """floor=1: the output is a normal form (magnitude 1 or the configured range whatever the data is); floor=0: the output is in
+        the units of the data (shifts), the scale is the magnitude of the input alone"""
         sc = scale if scale is not None else max([abs(D(e)) for e in expected] + [Decimal(1)])
         for i, (e, o) in enumerate(zip(expected, y)):
-            if not close(e, o, sc):
+            if not close(e, o, sc, floor):
                 bad.append((f"{name}: cell differs from the documented formula {label}", {"index": i, "exact": str(D(e))[:40]}, float(o)))
                 return
 
@@ -385,13 +424,13 @@ def normal_form(name, params, xs, ys, obj=None):
         if mn < 0:
             if min(y) != 0:
                 bad.append(("PushNegatives: a criterion with a negative minimum does not have minimum 0 afterwards", 0, float(min(y))))
-            cells([v - mn for v in x], "x - min(x)", max(abs(v) for v in x) + abs(mn))
+            cells([v - mn for v in x], "x - min(x)", max(abs(v) for v in x) + abs(mn), floor=0)
         elif y != x:
             bad.append(("PushNegatives: a criterion without negative values was changed", [float(v) for v in x], [float(v) for v in y]))
     elif name == "AddValueToZero":
         val = C.F(params["value"])
         if any(v == 0 for v in x):
-            cells([v + val for v in x], "x + value", max(abs(v) for v in x) + abs(val))
+            cells([v + val for v in x], "x + value", max(abs(v) for v in x) + abs(val), floor=0)
         elif y != x:
             bad.append(("AddValueToZero: a criterion that contains no zero was changed", [float(v) for v in x], [float(v) for v in y]))
     return bad
@@ -459,12 +498,16 @@ def judge(case, obs, replies):
     mm = [[val(x) for x in r] for r in rep["M"]]
     mw = [val(x) for x in rep["w"]]
 
-    def far(a, b):
-        return not (abs(a - b) <= 1e-9 * max(1.0, abs(a)))
+    def far(a, b, floor=1.0):
+        return not (abs(a - b) <= 1e-9 * max(floor, abs(a)))
 
-    if len(mm) != m or any(far(a, b) for ra, rb in zip(mm, Y) for a, b in zip(ra, rb)):
+    # shifts give an output in the units of the data: the floor of the scale is the magnitude of the input (never above 1)
+    shift = name in ("PushNegatives", "AddValueToZero")
+    fm = min(1.0, max(abs(v) for r in A for v in r) + abs(params.get("value", 0.0))) if shift else 1.0
+    fw = min(1.0, max(abs(v) for v in w) + abs(params.get("value", 0.0))) if shift else 1.0
+    if len(mm) != m or any(far(a, b, fm) for ra, rb in zip(mm, Y) for a, b in zip(ra, rb)):
         corr(f"{name}({target}) {params}: matrix, model vs implementation", mm, Y)
-    if len(mw) != n or any(far(a, b) for a, b in zip(mw, wy)):
+    if len(mw) != n or any(far(a, b, fw) for a, b in zip(mw, wy)):
         corr(f"{name}({target}) {params}: weights, model vs implementation", mw, wy)
     if rep["O"] != ["max" if x == 1 else "min" for x in obs["objectives"]]:
         corr(f"{name}: objectives, model vs implementation", rep["O"], obs["objectives"])
@@ -480,6 +523,7 @@ def tags(case, obs):
          "shape:" + ("tall" if len(case["dm"]["matrix"]) > len(case["dm"]["objectives"]) else "wide")]
     dt = case["dm"].get("dtypes") or ["float"]
     t.append("dtypes:" + ("int" if all(x == "int" for x in dt) else "float" if all(x == "float" for x in dt) else "mixed"))
+    t.append("magnitude:" + case["dm"].get("magnitude", "unit"))
     if case["malformed"]:
         t.append("malformed:" + ("refused" if "err" in obs else "accepted"))
     A = case["dm"]["matrix"]
